@@ -988,3 +988,95 @@ class _Graph:
 def _caller_of_graph_methods(graph: _Graph, worklist: list, prefix: str) -> bool:
     node = worklist.pop()
     return graph.unsafe_hierarchy_read_off_the_node_names(node, prefix + ".") or graph.unsafe_prefix_is_a_flattened_name(node, node)
+
+
+def _helper_length_of_closest_listed(name: Node, listed: frozenset) -> "int | None":
+    length = len(name)
+    while length >= 0:
+        if name[:length] in listed:
+            return length
+        length = name.rfind(".", 0, length)
+    return None
+
+
+def safe_cut_at_index_from_helper(module: Node, aliases: dict[Node, str]) -> str:
+    aliased_length = _helper_length_of_closest_listed(module, frozenset(aliases))
+    if aliased_length is None:
+        return module
+    return aliases[module[:aliased_length]] + module[aliased_length:]
+
+
+def _helper_length_of_raw_prefix(name: Node, listed: list[Node]) -> "int | None":
+    for candidate in listed:
+        if name.startswith(candidate):
+            return len(candidate)
+    return None
+
+
+def unsafe_cut_at_length_of_raw_prefix(module: Node, aliases: dict[Node, str]) -> str:
+    aliased_length = _helper_length_of_raw_prefix(module, sorted(aliases, key=len, reverse=True))
+    if aliased_length is None:
+        return module
+    return aliases[module[:aliased_length]] + module[aliased_length:]
+
+
+def _helper_unguarded_position(name: Node) -> int:
+    position = name.rfind(".")
+    return position
+
+
+def unsafe_cut_at_unguarded_position_from_helper(module: Node) -> str:
+    position = _helper_unguarded_position(module)
+    return module[:position]
+
+
+def safe_named_separator_in_fstring(module: Node, other: Node) -> bool:
+    return module == other or module.startswith(f"{other}{SEPARATOR}")
+
+
+def safe_label_after_named_separator_predicate(module: Node, listed: list[Node], aliases: dict[str, str]) -> str:
+    try:
+        closest = next(m for m in listed if safe_named_separator_in_fstring(module, m))
+    except StopIteration:
+        return module
+    return aliases[closest] + module[len(closest):]
+
+
+def _helper_partition_by_flag(filters: list) -> tuple:
+    patterns: list[str] = []
+    others: list = []
+    for module_filter in filters:
+        if not module_filter.identifier_is_regex:
+            others.append(module_filter)
+            continue
+        patterns.append(module_filter.identifier)
+    return patterns, others
+
+
+def _caller_patterns_selected_by_flag_in_helper(filters: list, modules: list[Node]) -> list[str]:
+    patterns, _others = _helper_partition_by_flag(filters)
+    return [m for m in modules for pattern in patterns if safe_user_pattern_from_helper_tuple(pattern, m)]
+
+
+def safe_user_pattern_from_helper_tuple(pattern_to_match: str, name: str) -> bool:
+    return re.match(pattern_to_match, name) is not None
+
+
+def _helper_partition_by_negated_flag(filters: list) -> tuple:
+    patterns: list[str] = []
+    others: list = []
+    for module_filter in filters:
+        if module_filter.identifier_is_regex:
+            others.append(module_filter)
+            continue
+        patterns.append(module_filter.identifier)
+    return patterns, others
+
+
+def _caller_names_used_as_patterns(filters: list, modules: list[Node]) -> list[str]:
+    patterns, _others = _helper_partition_by_negated_flag(filters)
+    return [m for m in modules for pattern in patterns if unsafe_names_used_as_patterns(pattern, m)]
+
+
+def unsafe_names_used_as_patterns(pattern_to_match: str, name: str) -> bool:
+    return re.match(pattern_to_match, name) is not None
